@@ -77,6 +77,36 @@ def parseAns (s : String) : Option AnsRR :=
     some { owner := str o, rtype := t, covered := c }
   | _ => none
 
+def parseCh (s : String) : Option ChRR :=
+  match s.splitOn "/" with
+  | [o, t] => do
+    let t ← t.toNat?
+    some { owner := str o, rtype := t }
+  | [o, t, g] => do
+    let t ← t.toNat?
+    some { owner := str o, rtype := t, target := str g }
+  | _ => none
+
+def chStr (r : ChRR) : String :=
+  if r.rtype == 5 then s!"{unstr r.owner}/{r.rtype}/{unstr r.target}" else s!"{unstr r.owner}/{r.rtype}"
+
+/-- `target=L | target=F | target=R<rcode>:<ns>:<rr+rr…>`; the first entry for a target counts. -/
+def parseSub (s : String) : Option (Str × SubResult) :=
+  match s.splitOn "=" with
+  | [name, val] =>
+    if val == "L" then some (str name, SubResult.limit)
+    else if val == "F" then some (str name, SubResult.fail)
+    else if val.startsWith "R" then
+      match (val.drop 1).toString.splitOn ":" with
+      | [rc, ns, recs] => do
+        let rc ← rc.toNat?
+        let ns ← ns.toNat?
+        let rs ← (listOf recs "+").mapM parseCh
+        some (str name, SubResult.resp { rcode := rc, answer := rs, nsCount := ns })
+      | _ => none
+    else none
+  | _ => none
+
 def keptIdx {α : Type} (keep : α → Bool) (l : List α) : List String :=
   (l.zipIdx.filter (fun p => keep p.1)).map (fun p => toString p.2)
 
@@ -141,6 +171,22 @@ def step (st : State) (w : List String) : State × String :=
     match (listOf answers ";").mapM parseAns with
     | some as => (st, "keep=" ++ dash (keptIdx (fun r => nameInZone (lower r.owner) (lower (str zone))) as))
     | none => (st, "bad-op")
+  | ["nsaddr", "run", rrs] =>
+    match (listOf rrs ";").mapM parseExtra with
+    | some es =>
+      let l := searchAddrs st.locals (es.map fun e => { owner := e.owner, rtype := e.rtype, addr := e.addr })
+      (st, "addrs=" ++ dash (l.map bytesHex))
+    | none => (st, "bad-op")
+  | ["chase", "run", qname, qtype, rcode, answer, script] =>
+    match qtype.toNat?, rcode.toNat?, (listOf answer ";").mapM parseCh, (listOf script ";").mapM parseSub with
+    | some qt, some rc, some ans, some subs =>
+      let resolve : Str → SubResult := fun t =>
+        match subs.find? (fun p => p.1 == t) with
+        | some p => p.2
+        | none => SubResult.fail
+      let out := additionalAnswer resolve (str qname) qt rc ans
+      (st, s!"rcode={out.rcode} an={dash (out.answer.map chStr)} asked={dash (out.asked.map unstr)}")
+    | _, _, _, _ => (st, "bad-op")
   | ["clr", "run", edns, flag, nns, nextra] =>
     match parseBool edns, nns.toNat?, nextra.toNat? with
     | some e, some n, some x =>
